@@ -304,7 +304,13 @@ def check(src, rep):
                     continue
                 guards = p.guards[:ng]
                 how = None
-                if what == "index":
+                if what == "extremum":
+                    how = D.index_ok(e, guards)
+                    if how is None:
+                        seq0 = strip_epoch(detail[1])
+                        report(seq0[0] == "slice", cls, "extremum", fnq, line, f"max()/min() of {show_sv(detail[1])[:60]}, which can be empty (ValueError)", entry)
+                        continue
+                elif what == "index":
                     how = D.index_ok(e, guards)
                     if how is None and __import__("os").environ.get("VERIF_DEBUG"):
                         print("DEBUG index site", detail, file=__import__("sys").stderr)
